@@ -8,7 +8,7 @@ count bounded), population per node, exact refusal conditions.
 No auxiliary invariant was needed: `WF` itself is inductive.  The proofs go
 through the equivalent pointwise form `WFp none` (VNetWFBase).
 -/
-namespace SqVerif.VNet
+namespace SqVerif.VNet.WFP
 open List
 
 /-! ### `WF` is an invariant -/
@@ -245,4 +245,4 @@ theorem WFp.heldAt_virtNode {s : Net} (w : WFp none s) {a h : Nat} {vq : VQ} (hh
   rw [hv] at f1; cases f1
   exact ⟨f3, f2⟩
 
-end SqVerif.VNet
+end SqVerif.VNet.WFP
